@@ -2,19 +2,23 @@
 import json, os
 import vlib
 
-PROPS = "MutableAccessClears CopyKeepsPair EvaluateExact CountOnlyByEvaluate BestRules NoDuplicateOnReinsert"
+PROPS = "MutableAccessClears CopyKeepsPair EvaluateExact RegisteredApplied CountOnlyByEvaluate BestRules NoDuplicateOnReinsert"
 
 
-def cfg_mc(sols, f, k, maxpop, export):
-    s = ("SPECIFICATION MSpec\nCONSTANTS\n  Sols = {%s}\n  F <- %s\n  K = %d\n  MaxPop = %d\nVIEW McView\n"
-         % (", ".join(map(str, range(1, sols + 1))), f, k, maxpop))
-    s += "ACTION_CONSTRAINT PrintEdge\n" if export else "INVARIANT MTypeOK Fresh ArchiveHoldsKBest\nPROPERTY %s\n" % PROPS
+def cfg_mc(sols, f, k, maxpop, export, regkinds=(), both=False):
+    """export: print every transition; both: check the properties in the same (single-worker) run."""
+    s = ("SPECIFICATION MSpec\nCONSTANTS\n  Sols = {%s}\n  F <- %s\n  K = %d\n  MaxPop = %d\n  RegKinds = {%s}\nVIEW McView\n"
+         % (", ".join(map(str, range(1, sols + 1))), f, k, maxpop, ", ".join(map(str, regkinds))))
+    if export:
+        s += "ACTION_CONSTRAINT PrintEdge\n"
+    if both or not export:
+        s += "INVARIANT MTypeOK Fresh ArchiveHoldsKBest\nPROPERTY %s\n" % PROPS
     return s + "CHECK_DEADLOCK FALSE\n"
 
 
 def cfg_trace(sols, f, k):
     # F is needed by the trace spec too; the MC module defines the tables
-    return ("SPECIFICATION TraceSpec\nCONSTANTS\n  Sols = {%s}\n  F <- %s\n  K = %d\n  MaxPop = 99\n"
+    return ("SPECIFICATION TraceSpec\nCONSTANTS\n  Sols = {%s}\n  F <- %s\n  K = %d\n  MaxPop = 99\n  RegKinds = {0, 1, 4}\n"
             "INVARIANT Fresh ArchiveHoldsKBest\nPOSTCONDITION TraceDone\nCHECK_DEADLOCK FALSE\n"
             % (", ".join(map(str, range(1, sols + 1))), f, k))
 
@@ -27,7 +31,7 @@ DESCRIBE = {
 }
 
 
-def unit(ctx, focus):
+def unit(ctx, focus, registrations=False):
     """(A) MC of Memory.tla, (B) transition tour replayed on the real code, (C) random histories."""
     q = ctx.quick
     ctx.tlc_mc("MC_Memory", cfg_mc(3, "FQ", 2, 2, False) if q else cfg_mc(4, "FT", 2, 3, False), "mc-memory",
@@ -35,12 +39,29 @@ def unit(ctx, focus):
     ex = ctx.tlc_mc("MC_Memory", cfg_mc(2, "FQ", 1, 2, True) if q else cfg_mc(3, "FQ", 2, 2, True), "export-memory",
                     workers=1, timeout=3000)
     scen, edges = vlib.export_scenarios(ctx, ex["out"], "tour-memory")
-    vlib.vacuity(edges, "act.op", focus, "operation")
     tr = os.path.join(ctx.work, "tour-memory.trace.ndjson")
     kk = 1 if q else 2
     ctx.harness("memory", "replay", **{"in": scen, "out": tr, "k": kk, "table": "FQ"})
     ctx.validate("Trace_Memory_T", cfg_trace(3, "FQ", kk), tr, "tour-memory", DESCRIBE,
                  {"driver": "memory", "k": kk, "table": "FQ"}, timeout=3000)
+    # the evaluator registrations (which evaluator an evaluation step finds: registered twice, under two identifiers,
+    # by a scope of its own, around it, nowhere) on a small population: model-checked and toured in one run
+    if not registrations:
+        vlib.vacuity(edges, "act.op", focus, "operation")
+        return _random(ctx, q)
+    ex2 = ctx.tlc_mc("MC_Memory", cfg_mc(1, "FQ", 1, 1, True, regkinds=(0, 4), both=True) if q else
+                     cfg_mc(1, "FQ", 1, 2, True, regkinds=(0, 1, 4), both=True), "mc-export-registrations", workers=1, timeout=3000)
+    scen2, edges2 = vlib.export_scenarios(ctx, ex2["out"], "tour-registrations")
+    vlib.vacuity(edges + edges2, "act.op", focus, "operation")
+    vlib.vacuity([e for e in edges2 if e["act"]["op"] == "evaluate_scoped"], "res.k", ["ok", "err"], "outcome of a scoped evaluation")
+    tr2 = os.path.join(ctx.work, "tour-registrations.trace.ndjson")
+    ctx.harness("memory", "replay", **{"in": scen2, "out": tr2, "k": 1, "table": "FQ"})
+    ctx.validate("Trace_Memory_T", cfg_trace(3, "FQ", 1), tr2, "tour-registrations", DESCRIBE,
+                 {"driver": "memory", "k": 1, "table": "FQ"}, timeout=3000)
+    _random(ctx, q)
+
+
+def _random(ctx, q):
     for k in ([1, 3] if q else [0, 1, 2, 3, 4]):
         tr = os.path.join(ctx.work, "random-memory-k%d.trace.ndjson" % k)
         ctx.harness("memory", "random", out=tr, seed=ctx.seed + k, k=k, table="FZ", n=10 if q else 100, len=400 if q else 2000)
